@@ -1,1 +1,321 @@
-PROPERTY='C15'
+"""C15 -- backoff sequences are monotone, capped at stop, right length; jitter bounded.
+
+Engine: simrand (thin).  The only nondeterminism in this property is the global PRNG
+read by the jitter; the simulator owns it and presents the draws a real run meets with
+probability ~2**-53 (0.0 and 1-2**-53) next to ordinary ones.  The remaining clauses do
+not depend on any seam; they are checked on the same runs as the un-jittered baseline.
+"""
+import math
+from fractions import Fraction
+
+from simkit import core, shrinkers
+from engines.simrand import SimRandom
+
+PROPERTY = 'C15'
+ENGINE = 'simrand'
+LEVEL = 'exploration'
+SOURCE_FILES = ['boltons/iterutils.py']
+SIM_TIME_UNIT = 'values drawn from backoff_iter'
+TIERS = {
+    'quick': {'budget_s': 10, 'min_runs': 50000, 'block': 2000},
+    'thorough': {'budget_s': 300, 'min_runs': 5000000, 'block': 5000},
+}
+RULE = ('start/stop/factor/count/jitter and the PRNG draw script are drawn from the run PRNG, biased to exact '
+        'powers (stop = start*factor**k and its floating-point neighbours), start = 0, stop < 1, factor = 1 with an '
+        'explicit count, count in {None, 0, 1, k, "repeat"}, jitter in {False, +-0.1, +-0.5, +-1, True}, invalid '
+        'parameters; draw scripts mix 0.0, 1-2**-53, tiny, mid and seeded values. Non-trivial: jitter is on and at '
+        'least one extreme draw (0.0 or 1-2**-53) was consumed, or the stop is within 2 ulp of start*factor**k, or '
+        'start == 0 with stop < 1. distinct = distinct (parameters, script) hashes among those.')
+COMPONENTS = {'real': ['boltons.iterutils.backoff', 'boltons.iterutils.backoff_iter'],
+              'stub': ['the random module as seen by iterutils (engines.simrand.SimRandom)']}
+ASSUMPTIONS = ['"grow by exactly factor per step" is checked with a relative tolerance of 1e-12 per value (an implementation may multiply cumulatively or use powers); never exceeding stop, monotonicity, the length and "last value is stop" are checked exactly',
+               'factor == 1 is only exercised with an explicit count (the statement restricts the default count to factor > 1)',
+               'jitter bounds are evaluated in exact rational arithmetic with a 1e-12 relative allowance']
+
+it = None
+
+
+def setup(root):
+    global it
+    import boltons.iterutils as m
+    it = m
+
+
+EXT_HI = 1.0 - 2.0 ** -53
+
+
+def _gen_script(rng):
+    n = rng.randint(1, 6)
+    out = []
+    for _ in range(n):
+        r = rng.random()
+        if r < 0.2:
+            out.append(0.0)
+        elif r < 0.4:
+            out.append(EXT_HI)
+        elif r < 0.5:
+            out.append(2.0 ** -rng.randint(30, 1000))
+        elif r < 0.6:
+            out.append(0.5)
+        else:
+            out.append(rng.random())
+    return out
+
+
+def gen_case(rng, tier):
+    factor = rng.choice([2.0, 2.0, 1.5, 3.0, 10.0, 1.1, 1.0000001, round(rng.uniform(1.01, 4.0), 3)])
+    start = rng.choice([0.0, 0.0, 1.0, 0.25, 1.5, 0.001, 1e-9, 3.0, round(rng.uniform(0.0, 5.0), 3)])
+    k = rng.randint(0, 12)
+    r = rng.random()
+    base = start if start else 1.0
+    p = base
+    for _ in range(k):
+        p *= factor
+    if r < 0.25:
+        stop = p
+    elif r < 0.4:
+        stop = math.nextafter(p, math.inf)
+    elif r < 0.55:
+        stop = math.nextafter(p, 0.0)
+    elif r < 0.65:
+        stop = base * factor ** k
+    elif r < 0.75:
+        stop = start if start else 0.5
+    elif r < 0.85:
+        stop = rng.choice([0.5, 0.9, 0.001, 1.0, 0.999999])
+    else:
+        stop = round(start + rng.uniform(0.0, 100.0), 3)
+    if stop < start:
+        stop = start
+    if stop <= 0:
+        stop = 0.5
+    if math.log(max(stop / base, 1.0)) / math.log(factor) > 400:
+        factor = 2.0             # keep sequences short (the harness materialises them)
+    count = rng.choice([None, None, None, 0, 1, 2, k, k + 1, k + 3, 'repeat'])
+    jitter = rng.choice([False, False, 0.1, -0.1, 0.5, -0.5, 1.0, -1.0, True, 0.999, -0.25])
+    api = rng.choice(['backoff', 'backoff_iter'])
+    case = {'start': start, 'stop': stop, 'factor': factor, 'count': count, 'jitter': jitter,
+            'api': api, 'script': _gen_script(rng), 'k_hint': k}
+    if rng.random() < 0.06:
+        if rng.random() < 0.5:
+            case['factor'] = 1.0
+            case['count'] = rng.choice([0, 1, 3, 7])
+    if rng.random() < 0.08:
+        bad = rng.choice(['start<0', 'factor<1', 'stop=0', 'stop<start', 'count<0', 'jitter>1', 'jitter<-1'])
+        if bad == 'start<0':
+            case['start'] = -abs(start) - 0.5
+        elif bad == 'factor<1':
+            case['factor'] = rng.choice([0.5, 0.999, 0.0, -2.0])
+        elif bad == 'stop=0':
+            case['stop'] = 0.0
+            case['start'] = 0.0
+        elif bad == 'stop<start':
+            case['start'] = stop + 1.0
+        elif bad == 'count<0':
+            case['count'] = -rng.randint(1, 3)
+        elif bad == 'jitter>1':
+            case['jitter'] = rng.choice([1.0000001, 2.0, 5])
+        else:
+            case['jitter'] = rng.choice([-1.0000001, -2.0])
+    if case['count'] == 'repeat':
+        case['api'] = 'backoff_iter'
+    return case
+
+
+def fixed_cases(tier):
+    return [
+        {'start': 0.0, 'stop': 0.5, 'factor': 2.0, 'count': None, 'jitter': False, 'api': 'backoff', 'script': [0.5], 'k_hint': 0},
+        {'start': 1.0, 'stop': 10.0, 'factor': 2.0, 'count': None, 'jitter': False, 'api': 'backoff', 'script': [0.5], 'k_hint': 3},
+        {'start': 0.25, 'stop': 100.0, 'factor': 10.0, 'count': None, 'jitter': True, 'api': 'backoff_iter', 'script': [0.0, EXT_HI], 'k_hint': 3},
+        {'start': 1.0, 'stop': 10.0, 'factor': 2.0, 'count': 8, 'jitter': -1.0, 'api': 'backoff_iter', 'script': [EXT_HI, 0.0], 'k_hint': 3},
+    ]
+
+
+def case_size(case):
+    return len(case['script']) + (0 if case['count'] in (None, 'repeat') else abs(case['count'])) + case.get('k_hint', 0)
+
+
+def _valid(case):
+    s, t, f, c, j = case['start'], case['stop'], case['factor'], case['count'], case['jitter']
+    if s < 0 or f < 1 or t <= 0 or t < s:
+        return False
+    if c not in (None, 'repeat') and c < 0:
+        return False
+    if j is not False and j is not True and not (-1.0 <= j <= 1.0):
+        return False
+    return True
+
+
+def _reference(start, stop, factor, n):
+    """The un-jittered sequence, n values."""
+    out = []
+    cur = float(start)
+    for _ in range(n):
+        out.append(cur)
+        if cur == 0:
+            cur = min(1.0, stop)
+        elif cur < stop:
+            cur = cur * factor
+        if cur > stop:
+            cur = stop
+    return out
+
+
+def _steps_to_stop(start, stop, factor, cap=100000):
+    cur, n = float(start), 1
+    while cur < stop and n < cap:
+        if cur == 0:
+            cur = min(1.0, stop)
+        else:
+            cur = cur * factor
+        if cur > stop:
+            cur = stop
+        n += 1
+    return n
+
+
+def _close(a, b):
+    return a == b or abs(a - b) <= 1e-12 * max(abs(a), abs(b))
+
+
+def run_case(case):
+    out = core.Outcome()
+    log = core.EventLog(keep=False)
+    rnd = SimRandom(case['script'], log)
+    it.random = rnd
+    s, t, f, c, j = case['start'], case['stop'], case['factor'], case['count'], case['jitter']
+    valid = _valid(case)
+    kw = dict(count=c, factor=f, jitter=j)
+    need = None
+    if valid and c is None and f == 1.0:
+        valid_scope = False          # default count with factor 1 is outside the statement
+        out.digest = log.digest()
+        return out
+    if valid:
+        to_stop = _steps_to_stop(s, t, f, cap=5000)
+        if to_stop >= 5000:
+            out.probe('skipped_sequence_too_long')
+            out.digest = log.digest()
+            return out
+        need = (to_stop + 4) if c == 'repeat' else (to_stop + 2 if c is None else c)
+    vals, exc = [], None
+    overrun = False
+    try:
+        # always consume the generator form first, bounded: a sequence that does not end where
+        # it must is reported, not materialised
+        g = it.backoff_iter(s, t, **kw)
+        lim = (need if c == 'repeat' else (need + 50 if need is not None else 50))
+        for v in g:
+            vals.append(v)
+            if len(vals) >= lim and c == 'repeat':
+                break
+            if len(vals) > lim + 1000:
+                overrun = True
+                break
+        if case['api'] == 'backoff' and not overrun and c != 'repeat':
+            # the list form must be the same sequence (same scripted draws)
+            rnd2 = SimRandom(case['script'], None)
+            it.random = rnd2
+            lst = it.backoff(s, t, **kw)
+            it.random = rnd
+            if list(lst) != vals:
+                out.fail('list-form-differs', 0, 'backoff(%r, %r, %r) returned %r, backoff_iter yields %r'
+                         % (s, t, kw, list(lst)[:12], vals[:12]), clause='api')
+    except Exception as e:
+        exc = e
+    log.add('vals', repr(vals), type(exc).__name__ if exc else None)
+    out.steps = len(vals) + 1
+    out.sim_time = float(len(vals))
+    jit = (1.0 if j is True else (0.0 if j is False else float(j))) if valid else 0.0
+    if not valid:
+        if not isinstance(exc, ValueError) or vals:
+            out.fail('invalid-parameters-accepted', 0,
+                     'start=%r stop=%r factor=%r count=%r jitter=%r: expected ValueError before anything is yielded, got %s after %d values'
+                     % (s, t, f, c, j, type(exc).__name__ if exc else 'no exception', len(vals)), clause='ValueError')
+        out.digest = log.digest()
+        return out
+    if overrun:
+        out.fail('wrong-length', len(vals), 'backoff_iter(%r, %r, count=%r, factor=%r, jitter=%r) did not end within %d values'
+                 % (s, t, c, f, j, len(vals)), clause='count')
+        out.digest = log.digest()
+        return out
+    if exc is not None:
+        out.fail('unexpected-exception', 0, 'valid parameters start=%r stop=%r factor=%r count=%r jitter=%r raised %r'
+                 % (s, t, f, c, j, exc), clause='valid')
+        out.digest = log.digest()
+        return out
+    n = len(vals)
+    ref = _reference(s, t, f, max(n, 1))
+    desc = 'backoff(%r, %r, count=%r, factor=%r, jitter=%r) -> %r' % (s, t, c, f, j, vals[:12])
+    # length
+    if c not in (None, 'repeat') and n != c:
+        out.fail('wrong-length', n, '%s: %d values, count=%r' % (desc, n, c), clause='count')
+    elif c == 'repeat' and n < need:
+        out.fail('wrong-length', n, "%s: 'repeat' stopped after %d values" % (desc, n), clause='repeat')
+    elif c is None and n == 0:
+        out.fail('wrong-length', 0, '%s: default count produced nothing' % desc, clause='default-count')
+    if out.violation is None:
+        for i, v in enumerate(vals):
+            b = ref[i]
+            lo, hi = (b * (1 - jit), b) if jit >= 0 else (b, b * (1 - jit))
+            if jit == 0.0:
+                if not _close(v, b):
+                    out.fail('wrong-value', i, '%s: value %d is %r, un-jittered reference %r' % (desc, i, v, b), clause='growth')
+                    break
+                if v > t:
+                    out.fail('exceeds-stop', i, '%s: value %d = %r > stop' % (desc, i, v), clause='cap')
+                    break
+                if i and v < vals[i - 1]:
+                    out.fail('not-monotone', i, '%s: value %d = %r < previous %r' % (desc, i, v, vals[i - 1]), clause='monotone')
+                    break
+            else:
+                fv = Fraction(v)
+                flo, fhi = Fraction(lo), Fraction(hi)
+                tol = Fraction(1, 10 ** 12) * max(abs(fhi), abs(flo))
+                if not (flo - tol <= fv <= fhi + tol):
+                    out.fail('jitter-out-of-bounds', i,
+                             '%s: value %d = %r outside [%r, %r] (b=%r, jitter=%r, draws=%r)'
+                             % (desc, i, v, lo, hi, b, jit, rnd.draws[:8]), clause='jitter')
+                    break
+    if out.violation is None and c is None and jit == 0.0 and vals and vals[-1] != t:
+        out.fail('default-count-misses-stop', n - 1, '%s: last value %r is not stop %r' % (desc, vals[-1], t),
+                 clause='default-count')
+    if out.violation is None and c is None and jit != 0.0 and vals:
+        # with jitter the un-jittered value at the last position must be stop
+        if ref[n - 1] != t:
+            out.fail('default-count-misses-stop', n - 1, '%s: un-jittered value at the last position is %r, not stop %r'
+                     % (desc, ref[n - 1], t), clause='default-count')
+    if jit != 0.0 and n and len(rnd.draws) != n:
+        out.probe('draws_not_one_per_value')
+    nontriv = False
+    if jit != 0.0 and any(d in (0.0, EXT_HI) for d in rnd.draws):
+        nontriv = True
+        out.probe('extreme_draw_consumed')
+    if s == 0 and t < 1:
+        nontriv = True
+        out.probe('start_zero_stop_below_one')
+    base = s if s else 1.0
+    try:
+        kk = round(math.log(t / base, f)) if f > 1 else 0
+        p = base
+        for _ in range(max(0, kk)):
+            p *= f
+        if p != 0 and abs(p - t) <= 4 * math.ulp(t):
+            nontriv = True
+            out.probe('stop_within_ulps_of_exact_power')
+    except (ValueError, ZeroDivisionError, OverflowError):
+        pass
+    if nontriv:
+        out.nontrivial.append(core.h64([s, t, f, c, j, case['script']]))
+    if jit != 0.0:
+        out.fault('scripted_draws', len(rnd.draws))
+    out.digest = log.digest()
+    return out
+
+
+def shrink(case, fails):
+    c = shrinkers.shrink_list_field(case, 'script', fails, min_len=1)
+    for simple in ({'jitter': False}, {'api': 'backoff'}, {'factor': 2.0}, {'start': 1.0}, {'start': 0.0},
+                   {'count': None}, {'script': [0.5]}, {'script': [0.0]}):
+        c = shrinkers.try_set(c, simple, fails)
+    return c
